@@ -278,11 +278,27 @@ def simplify(t):
             tag = agg[1]
             if tag[0] == "adt" and tag[2] == inner[1] and i < len(agg[2]):
                 return agg[2][i]
+            if tag[0] == "adt" and tag[2] != inner[1]:
+                return INFEASIBLE       # payload of variant V read from a value built as another variant: no feasible path
         if inner[0] == "phi":
-            return ("phi", tuple(simplify(("field", i, x)) for x in inner[1]))
+            return _phi(simplify(("field", i, x)) for x in inner[1])
     if k == "downcast" and t[2][0] == "phi":
-        return ("phi", tuple(simplify(("downcast", t[1], x)) for x in t[2][1]))
+        return _phi(simplify(("downcast", t[1], x)) for x in t[2][1])
     return t
+
+
+INFEASIBLE = ("infeasible",)
+
+
+def _phi(members):
+    """A phi without infeasible members (a single survivor is the value itself)."""
+    ms = []
+    for m in members:
+        if m != INFEASIBLE and m not in ms:
+            ms.append(m)
+    if not ms:
+        return INFEASIBLE
+    return ms[0] if len(ms) == 1 else ("phi", tuple(ms))
 
 
 def strip_refs(t):
